@@ -660,7 +660,15 @@ class Extract(Family):
                 s = mk_surf(c)
                 tab = labeller(hom(s))
                 ex = construct.extract_curves(s)
-                return {"u": [canon_crv(x, tab) for x in ex["u"]], "v": [canon_crv(x, tab) for x in ex["v"]]}
+                res = {"u": [canon_crv(x, tab) for x in ex["u"]], "v": [canon_crv(x, tab) for x in ex["v"]]}
+                # the documented selection keywords: each family alone, none
+                opt = []
+                for eu, ev in ((True, False), (False, True), (False, False)):
+                    e2 = construct.extract_curves(s, extract_u=eu, extract_v=ev)
+                    opt.append([eu, ev, [canon_crv(x, tab) for x in e2["u"]] == (res["u"] if eu else []),
+                                [canon_crv(x, tab) for x in e2["v"]] == (res["v"] if ev else [])])
+                res["opt"] = opt
+                return res
             b = mk_vol(c)
             tab = labeller(hom(b))
             ex = construct.extract_surfaces(b)
@@ -692,6 +700,9 @@ class Extract(Family):
             for u, cr in enumerate(o["v"]):
                 if cr["p"] != c["pv"] or cr["U"] != c["Uv"] or cr["pts"] != [pts[v + sv * u] for v in range(sv)] or cr["rat"] != c["rat"]:
                     return "extract_curves['v'][%d]: not the row P(%d,.) with the v degree/knots" % (u, u)
+            for eu, ev, oku, okv in o.get("opt", []):
+                if not (oku and okv):
+                    return "extract_curves(extract_u=%s, extract_v=%s): the %s family is not exactly the requested one" % (eu, ev, "u" if not oku else "v")
             return None
         sw = c["sw"]
         pts = net(su, sv, sw, 3, c["rat"])
